@@ -582,10 +582,14 @@ class Integer(Type):
     def set_restricted_to_range(self, minimum, maximum, has_extension_marker):
         self.has_extension_marker = has_extension_marker
 
+        if has_extension_marker:
+            # An extensible constraint is not OER-visible (X.696 8.2.3).
+            return
+
         if minimum != 'MIN':
             self.signed = (minimum < 0)
 
-        if minimum == 'MIN' or maximum == 'MAX' or has_extension_marker:
+        if minimum == 'MIN' or maximum == 'MAX':
             return
 
         if minimum >= 0:
